@@ -9,7 +9,7 @@ _obs = sum(1 for m in _ms if str(m.get("assessment", "")).startswith("OBSOLETE")
 _out = sum(1 for m in _ms if "assessment" in m) - _obs
 _sib = sum(1 for m in _ms if "by C" in str(m.get("check_result_quick")) and "assessment" not in m)
 _hist = sum(1 for m in _ms if "history" in m and "assessment" not in m and "by C" not in str(m.get("check_result_quick")))
-STATS = "%d in seven waves: %d caught at once, %d after strengthening the check as described in their history line, %d caught by a sibling property's check, %d judged outside the statement and deliberately not asserted, %d made obsolete by a later repair of the code they relied on" % (len(_ms), len(_ms) - _out - _obs - _sib - _hist, _hist, _sib, _out, _obs)
+STATS = "%d in eight waves: %d caught at once, %d after strengthening the check as described in their history line, %d caught by a sibling property's check, %d judged outside the statement and deliberately not asserted, %d made obsolete by a later repair of the code they relied on" % (len(_ms), len(_ms) - _out - _obs - _sib - _hist, _hist, _sib, _out, _obs)
 out.append("Repaired defects and open findings (from known_findings.json; one `fix:` commit per root cause in /repo):\n")
 out.append("| property | finding | status | commit | what |\n|---|---|---|---|---|")
 for e in sorted(k, key=lambda e: e["property"]):
